@@ -1257,4 +1257,202 @@ theorem setHref_noFuel (vfs : Vfs) (who : Who) : ∀ (fuel : Nat) (chain : List 
             · simp
 
 
+theorem utf8_ne_fuel (c : Nat) : utf8 c ≠ .error .fuel := by
+  unfold utf8; repeat' split
+  all_goals simp
+
+theorem quote_ne_fuel : ∀ s, quote s ≠ .error .fuel
+  | [] => by simp [quote]
+  | c :: cs => by
+    unfold quote
+    split
+    · rename_i e he; intro h; simp at h; subst h; exact utf8_ne_fuel c he
+    · split
+      · rename_i e he; intro h; simp at h; subst h; exact quote_ne_fuel cs he
+      · simp
+
+theorem replacer_ne_fuel (h u : Str) : replacer h u ≠ .error .fuel := by
+  unfold replacer extractBase
+  split
+  · rename_i e he
+    split at he
+    · rename_i e' he'; intro hh; simp at he hh; subst hh; subst he; exact urlsplit_ne_fuel _ _ he'
+    · simp at he
+  · unfold replacerCall
+    split
+    · rename_i e he; intro hh; simp at hh; subst hh; exact urlsplit_ne_fuel _ _ he
+    · split
+      · simp
+      · simp only
+        split
+        · rename_i e he; intro hh; simp at hh; subst hh; exact quote_ne_fuel _ he
+        · simp
+
+abbrev NoFuelF (f : Repl) : Prop := ∀ u, f u ≠ .error .fuel
+
+theorem replComps_ne_fuel (f : Repl) (hf : NoFuelF f) : ∀ cs, replComps f cs ≠ .error .fuel
+  | [] => by simp [replComps]
+  | .uri u :: cs => by
+    unfold replComps
+    split
+    · rename_i e he; intro h; simp at h; subst h; exact hf u he
+    · split
+      · rename_i e he; intro h; simp at h; subst h; exact replComps_ne_fuel f hf cs he
+      · simp
+  | .tok t :: cs => by
+    unfold replComps
+    split
+    · rename_i e he; intro h; simp at h; subst h; exact replComps_ne_fuel f hf cs he
+    · simp
+  | .fn n a :: cs => by
+    unfold replComps
+    split
+    · rename_i e he; intro h; simp at h; subst h; exact replComps_ne_fuel f hf cs he
+    · simp
+
+theorem replStyle_ne_fuel (f : Repl) (hf : NoFuelF f) : ∀ st, replStyle f st ≠ .error .fuel
+  | [] => by simp [replStyle]
+  | d :: ds => by
+    unfold replStyle
+    split
+    · rename_i e he; intro h; simp at h; subst h; exact replComps_ne_fuel f hf _ he
+    · split
+      · rename_i e he; intro h; simp at h; subst h; exact replStyle_ne_fuel f hf ds he
+      · simp
+
+theorem replMargins_ne_fuel (f : Repl) (hf : NoFuelF f) : ∀ ms, replMargins f ms ≠ .error .fuel
+  | [] => by simp [replMargins]
+  | m :: ms => by
+    unfold replMargins
+    split
+    · rename_i e he; intro h; simp at h; subst h; exact replStyle_ne_fuel f hf _ he
+    · split
+      · rename_i e he; intro h; simp at h; subst h; exact replMargins_ne_fuel f hf ms he
+      · simp
+
+mutual
+theorem replRule_ne_fuel (f : Repl) (hf : NoFuelF f) : ∀ r, replRule f r ≠ .error .fuel
+  | .style sel st => by
+    unfold replRule
+    split
+    · rename_i e he; intro h; simp at h; subst h; exact replStyle_ne_fuel f hf _ he
+    · simp
+  | .fontface st => by
+    unfold replRule
+    split
+    · rename_i e he; intro h; simp at h; subst h; exact replStyle_ne_fuel f hf _ he
+    · simp
+  | .page sel st ms => by
+    unfold replRule
+    split
+    · rename_i e he; intro h; simp at h; subst h; exact replStyle_ne_fuel f hf _ he
+    · split
+      · rename_i e he; intro h; simp at h; subst h; exact replMargins_ne_fuel f hf _ he
+      · simp
+  | .media m rs => by
+    unfold replRule
+    split
+    · rename_i e he; intro h; simp at h; subst h; exact replRules_ne_fuel f hf rs he
+    · simp
+  | .charset _ => by simp [replRule]
+  | .comment _ => by simp [replRule]
+  | .imp _ _ _ _ _ => by simp [replRule]
+  | .ns _ _ => by simp [replRule]
+  | .unknown _ => by simp [replRule]
+theorem replRules_ne_fuel (f : Repl) (hf : NoFuelF f) : ∀ rs, replRules f rs ≠ .error .fuel
+  | [] => by simp [replRules]
+  | r :: rs => by
+    unfold replRules
+    split
+    · rename_i e he; intro h; simp at h; subst h; exact replRule_ne_fuel f hf r he
+    · split
+      · rename_i e he; intro h; simp at h; subst h; exact replRules_ne_fuel f hf rs he
+      · simp
+end
+
+theorem addRule_ne_fuel (vfs : Vfs) (th : Str) (target : Sheet) (r : Rule) :
+    (addRule vfs th target r).val ≠ .error .fuel := by
+  cases r with
+  | imp href media found t s =>
+    simp only [addRule]
+    split
+    · simp
+    · split
+      · rename_i e he
+        intro h; simp at h; subst h
+        have := unvisited_le vfs [th]
+        exact setHref_noFuel vfs .dflt (vfs.length + 2) [th] href media (by omega) he
+      · simp
+  | charset e => simp only [addRule]; split <;> simp
+  | ns p u => simp only [addRule]; repeat' split; all_goals simp
+  | comment _ => simp [addRule]
+  | style _ _ => simp [addRule]
+  | media _ _ => simp [addRule]
+  | page _ _ _ => simp [addRule]
+  | fontface _ => simp [addRule]
+  | unknown _ => simp [addRule]
+
+theorem addAll_ne_fuel (vfs : Vfs) (th : Str) : ∀ (rs : List Rule) (t : Sheet), (addAll vfs th t rs).val ≠ .error .fuel
+  | [], t => by simp [addAll]
+  | r :: rs, t => by
+    simp only [addAll]
+    split
+    · rename_i e he; intro h; simp at h; subst h; exact addRule_ne_fuel vfs th t r he
+    · exact addAll_ne_fuel vfs th rs _
+
+theorem proxyAddAll_ne_fuel : ∀ (rs acc : List Rule), proxyAddAll acc rs ≠ .error .fuel
+  | [], acc => by simp [proxyAddAll]
+  | r :: rs, acc => by
+    cases r <;> simp [proxyAddAll, proxyAddAll_ne_fuel rs]
+
+mutual
+theorem resolveRules_ne_fuel (vfs : Vfs) : ∀ (rs : List Rule) (th : Str) (t : Sheet),
+    (resolveRules vfs th t rs).val ≠ .error .fuel
+  | [], th, t => by simp [resolveRules]
+  | r :: rs, th, t => by
+    simp only [resolveRules]
+    split
+    · rename_i e he; intro h; simp at h; subst h; exact resolveRule_ne_fuel vfs r th t he
+    · exact resolveRules_ne_fuel vfs rs th _
+theorem resolveRule_ne_fuel (vfs : Vfs) : ∀ (r : Rule) (th : Str) (t : Sheet),
+    (resolveRule vfs th t r).val ≠ .error .fuel
+  | .charset _, th, t => by simp [resolveRule]
+  | .imp href media found ihref sheet, th, t => by
+    simp only [resolveRule]
+    split
+    · exact addRule_ne_fuel vfs th t _
+    · rw [addRule_plain vfs th t (.comment (startComment href)) rfl]
+      simp only
+      split
+      · exact addRule_ne_fuel vfs th _ _
+      · rename_i e hne he
+        intro h; simp at h; subst h
+        exact resolveRules_ne_fuel vfs sheet ihref [] he
+      · rename_i isheet his
+        split
+        · rename_i e he
+          intro h; simp at h; subst h
+          simp only [replaceUrls, ↓reduceIte] at he
+          split at he
+          · rename_i e' he'; simp at he; subst he; exact replRules_ne_fuel _ (replacer_ne_fuel href) _ he'
+          · simp at he
+        · rename_i rebased hre
+          split
+          · exact addAll_ne_fuel vfs th _ _
+          · split
+            · exact addRule_ne_fuel vfs th _ _
+            · split
+              · rename_i e he
+                intro h; simp at h; subst h; exact proxyAddAll_ne_fuel _ _ he
+              · exact addRule_ne_fuel vfs th _ _
+  | .comment c, th, t => by simp only [resolveRule]; exact addRule_ne_fuel vfs th t _
+  | .ns p u, th, t => by simp only [resolveRule]; exact addRule_ne_fuel vfs th t _
+  | .style a b, th, t => by simp only [resolveRule]; exact addRule_ne_fuel vfs th t _
+  | .media a b, th, t => by simp only [resolveRule]; exact addRule_ne_fuel vfs th t _
+  | .page a b c, th, t => by simp only [resolveRule]; exact addRule_ne_fuel vfs th t _
+  | .fontface a, th, t => by simp only [resolveRule]; exact addRule_ne_fuel vfs th t _
+  | .unknown a, th, t => by simp only [resolveRule]; exact addRule_ne_fuel vfs th t _
+end
+
+
 end CssVerif.Urls
